@@ -1166,6 +1166,71 @@ fn gen_rule(rng: &mut Prng, id: &str) -> Value {
     r
 }
 
+/// addresses spread over both families: zero runs of every length and position, IPv4-mapped, extremes
+fn random_ip(rng: &mut Prng) -> IpAddr {
+    if rng.chance(1, 3) {
+        IpAddr::V4(std::net::Ipv4Addr::from(match rng.below(4) {
+            0 => 0,
+            1 => u32::MAX,
+            2 => (rng.below(256) as u32) << (8 * rng.below(4)),
+            _ => rng.next() as u32,
+        }))
+    } else {
+        let mut seg = [0u16; 8];
+        let style = rng.below(4);
+        for (i, s) in seg.iter_mut().enumerate() {
+            *s = match style {
+                0 => {
+                    if rng.chance(1, 2) {
+                        0
+                    } else {
+                        rng.next() as u16
+                    }
+                }
+                1 => *rng.pick(&[0u16, 0, 0, 1, 0xffff, 0x10, 0x100, 0xabcd]),
+                2 => {
+                    if i < 5 {
+                        0
+                    } else if i == 5 {
+                        *rng.pick(&[0xffffu16, 0xffff, 0, 0xfffe])
+                    } else {
+                        rng.next() as u16
+                    }
+                }
+                _ => rng.next() as u16,
+            };
+        }
+        IpAddr::V6(std::net::Ipv6Addr::from(seg))
+    }
+}
+
+/// instants spread over chrono's whole range, with 0 / 3 / 6 / 9 significant fractional digits and leap seconds
+fn random_instant(rng: &mut Prng) -> String {
+    use chrono::{TimeZone, Utc};
+    let secs = match rng.below(4) {
+        0 => (rng.next() % 4_102_444_800) as i64,                                  // 1970..2100
+        1 => (rng.next() % (2 * 62_167_219_200)) as i64 - 62_167_219_200,          // around year 0 .. 3940
+        _ => (rng.next() % (2 * 8_210_000_000_000u64)) as i64 - 8_210_000_000_000, // about +-260 000 years
+    };
+    let mut nanos = match rng.below(5) {
+        0 => 0,
+        1 => (rng.below(1000) as u32) * 1_000_000,
+        2 => (rng.below(1_000_000) as u32) * 1000,
+        3 => *rng.pick(&[1u32, 999_999_999, 100_000_000, 1_000, 1_000_000, 10]),
+        _ => rng.below(1_000_000_000) as u32,
+    };
+    if secs.rem_euclid(60) == 59 && rng.chance(1, 4) {
+        nanos += 1_000_000_000; // leap second
+    }
+    match Utc.timestamp_opt(secs, nanos) {
+        chrono::LocalResult::Single(dt) => match serde_json::to_value(dt) {
+            Ok(Value::String(s)) => s,
+            _ => "2024-01-02T03:04:05Z".to_string(),
+        },
+        _ => "2024-01-02T03:04:05Z".to_string(),
+    }
+}
+
 fn gen_req_spec(rng: &mut Prng, for_action: bool) -> Value {
     let urls: &[&str] = if for_action {
         &["/x/abc", "/x/abc?utm_source=a", "/x/abc?utm_source=a&utm_medium=b c"]
@@ -1187,14 +1252,18 @@ fn gen_req_spec(rng: &mut Prng, for_action: bool) -> Value {
         r["method"] = json!(*rng.pick(&["GET", "POST", "get", "", "PURGE"]));
     }
     if rng.chance(1, 2) {
-        r["ip"] = json!(*rng.pick(IPS));
+        r["ip"] = if rng.chance(1, 2) { json!(*rng.pick(IPS)) } else { json!(random_ip(rng).to_string()) };
     }
     if rng.chance(1, 3) {
         r["so"] = json!(rng.chance(1, 2));
     }
     if rng.chance(2, 3) {
-        let pool = if rng.chance(3, 4) { DATES } else { DATE_TEXTS };
-        r["at"] = json!(*rng.pick(pool));
+        if rng.chance(1, 2) {
+            r["at"] = json!(random_instant(rng));
+        } else {
+            let pool = if rng.chance(3, 4) { DATES } else { DATE_TEXTS };
+            r["at"] = json!(*rng.pick(pool));
+        }
     }
     r
 }
